@@ -8,17 +8,22 @@
                     (this one is the Coq constant FileIndex.stem_deployed, shared with the C09 driver)
    fixed_lit      : fixes/C18-dofile-no-suffix.diff (526bcd1): dofile / loadfile / suffix-style imports are literal
    fixed_dotslash : fixes/C18-dot-slash-definition.diff (49c8cf0): definition / hover drop a leading "./"
-   fixed_reanalyse: fixes/C18-create-not-reanalysed.diff (f48e6f9): every create / delete event re-resolves every reference *)
+   fixed_reanalyse: fixes/C18-create-not-reanalysed.diff (f48e6f9): every create / delete event re-resolves every reference
+   fixed_cursor   : fixes/C18-string-cursor.diff (9e1e7b2): definition / hover find the string under the cursor by the
+                    position of the quoted literal (any quote kind, every pattern, byte column)
+   (calcMatchStrScore's repair fixes/C18-score-position.diff (1f59be9) is the Coq constant ModulePath.score_deployed,
+    shared with the C09 driver through calc_score) *)
 let fixed_remove = true
 let fixed_order = true
 let fixed_stem = stem_deployed
 let fixed_lit = true
 let fixed_dotslash = true
 let fixed_reanalyse = true
+let fixed_cursor = true
 let mk_cfg exact ign root =
   { exact_mode = exact; ignore_refer = ign; ignore_modules = system_modules; main_dir = root;
     order_fixed = fixed_order; stem_fixed = fixed_stem; lit_fixed = fixed_lit; dotslash_fixed = fixed_dotslash;
-    reanalyse_fixed = fixed_reanalyse }
+    reanalyse_fixed = fixed_reanalyse; cursor_fixed = fixed_cursor }
 let split_list s = if s = "-" || s = "" then [] else String.split_on_char ',' s
 let uniq l = List.sort_uniq compare l
 let set_s l = "{" ^ String.concat "|" (uniq l) ^ "}"
@@ -138,6 +143,34 @@ let () = register "c18.openlist" (fun line ->
     "[" ^ String.concat "," (List.map hex_of_bytes l) ^ "]\t-\t-"
   | _ -> "BAD-CASE")
 
+(* ---------- c18.cursor ---------- *)
+(* case: "<pre> <line> <post> <col> <ch> <refers> new:<groups> old:<groups>" (the last two from the oracle c18.cursor_rx) *)
+let parse_groups (tok : string) : (ipat * occ list) list =
+  let body = String.sub tok 4 (String.length tok - 4) in
+  List.map (fun g ->
+    let tag = g.[0] and rest = String.sub g 2 (String.length g - 2) in
+    let p = (match tag with 'D' -> PDofile | 'R' -> PRequire | 'L' -> PImportLua | _ -> PImport) in
+    let occs = if rest = "-" then [] else List.map (fun o ->
+      match List.map int_of_string (String.split_on_char '.' o) with
+      | [a; b; c; d] -> { oc_start = nat_of_int a; oc_stop = nat_of_int b; oc_qs = nat_of_int c; oc_qe = nat_of_int d }
+      | _ -> failwith "occ") (String.split_on_char '+' rest) in
+    (p, occs)) (String.split_on_char '|' body)
+
+let () = register "c18.cursor" (fun line ->
+  match split_ws line with
+  | [_; lh; _; col; ch; _; gnew; gold] ->
+    let ln = if lh = "-" then [] else bytes_of_hex lh in
+    let col = nat_of_int (int_of_string col) and ch = nat_of_int (int_of_string ch) in
+    let gn = parse_groups gnew and go = parse_groups gold in
+    let cfg = mk_cfg false [] [] in
+    let lst l = "[" ^ String.concat "," (List.map hex_of_bytes l) ^ "]" in
+    let m = cursor_list cfg ln col ch (if fixed_cursor then gn else go) in
+    (* the demand: the literal of the matched import expression that holds the cursor, by position *)
+    let sp = cursor_list { cfg with cursor_fixed = true } ln col ch gn in
+    let cls = (if m <> sp then ["cursor_text_search"] else []) in
+    lst m ^ "\t" ^ lst sp ^ "\t" ^ (if cls = [] then "-" else String.concat "," cls)
+  | _ -> "BAD-CASE")
+
 (* ---------- c18.project ---------- *)
 (* case: "<root> <files> <cur rel> <refs> <events>" *)
 let () = register "c18.project" (fun line ->
@@ -146,7 +179,8 @@ let () = register "c18.project" (fun line ->
     let t = parse_tree rooth files in
     let cur = t.root @ (slash_n :: bytes_of_hex curh) in
     let cfg = mk_cfg false [] t.root in
-    let refl = List.map (fun r -> ((if r.[0] = 'd' then KSuffix else KRequire), bytes_of_hex (String.sub r 1 (String.length r - 1)))) (split_list refs) in
+    (* r: require("s")  q: require 's'  d: dofile("s")  D: dofile('s') - the same reference for the analysis *)
+    let refl = List.map (fun r -> ((if r.[0] = 'd' || r.[0] = 'D' then KSuffix else KRequire), bytes_of_hex (String.sub r 1 (String.length r - 1)))) (split_list refs) in
     let disk0 = List.map bytes_of_string t.diskl @ [cur] in
     let lua0 = t.indexed @ [cur] in
     let events = List.map (fun e ->
